@@ -11,9 +11,10 @@ props = json.load(open(os.path.join(os.path.dirname(HERE), "contracts", "propert
 only = sys.argv[1].split(",") if len(sys.argv) > 1 and sys.argv[1] != "all" else [p for p in props if props[p].get("verus", True)]
 work = os.environ.get("VERIF_WORK", "/var/tmp/tzrs-stability")
 os.makedirs(work, exist_ok=True)
-ex = extract.Extraction(repo)
+ex = None
 lib = extract.Library()
 for pid in only:
+    ex = extract.Extraction(repo, prop=pid)
     prop = props[pid]
     roots = list(ex.functions) if prop.get("all_functions") else prop.get("roots", [])
     deleg = prop.get("delegated", {})
